@@ -164,7 +164,7 @@ SPEC = {
             "class.Z2_field_element": 32, "class.Z2_field_operators": 20, "class.Zp_field_element": 6000, "class.Shared_Zp_field_element": 12000,
             "class.Zp_field_operators": 7000, "class.Field_Zp": 3000, "class.Multi_field_element": 600, "class.Shared_multi_field_element": 1500,
             "class.Multi_field_operators": 2500, "class.Multi_field_element_with_small_characteristics": 5000,
-            "class.Shared_multi_field_element_with_small_characteristics": 20000, "class.Multi_field_operators_with_small_characteristics": 4000,
+            "class.Shared_multi_field_element_with_small_characteristics": 12000, "class.Multi_field_operators_with_small_characteristics": 4000,
             "class.pcoh::Multi_field": 1000,
             "op.convert.int": 2500000, "op.convert.long": 3000000, "op.convert.uint": 2400000, "op.convert.ulong": 2500000, "op.convert.big": 100000,
             "op.add": 60000000, "op.sub": 60000000, "op.mul": 60000000, "op.add_mixed": 1000000000, "op.sub_mixed": 1000000000, "op.mul_mixed": 1000000000,
@@ -174,7 +174,7 @@ SPEC = {
             "state.negative_operand": 600000, "state.operand_below_minus_p": 400000, "state.operand_ge_p": 500000, "state.operand_p_minus_1": 190000,
             "state.result_needed_reduction": 65000000, "state.sum_wraps_uint32": 3500000, "state.fused_exact_above_2p31": 12000000,
             "state.partial_inverse_some_primes": 2000000, "state.partial_inverse_no_prime": 2800000, "state.partial_proper_subproduct": 8000000,
-            "blocks.prime_ge_32749": 150, "blocks.random_prime_gt_16384": 100, "blocks.product_above_2p31": 2500, "blocks.product_above_64_bits": 2000,
+            "blocks.prime_ge_32749": 150, "blocks.random_prime_gt_16384": 100, "blocks.product_above_2p31": 1800, "blocks.product_above_64_bits": 2000,
             "refuse.composite": 900, "refuse.range_without_prime": 400, "refuse.single_composite": 300, "refuse.not_greater_than_1": 60,
             "refuse.prime_above_documented_maximum": 3,
             "threads.concurrent_runs": 64, "probe.compile_time_refusals": 13,
